@@ -54,7 +54,7 @@ def run(ctx):
     if not binp:
         return
     thorough = ctx.thorough
-    n = 1500 if thorough else 150
+    n = 1500 if thorough else 120
     depth = 5 if thorough else 3
     inputs_per = 4 if thorough else 3
 
